@@ -345,7 +345,9 @@ func primFixedList[T constraints.Unsigned](c *primCtx) {
 		if n > 40 {
 			n = 1 + n%40
 		}
-		width := c.rng.Intn(12)
+		// width >= 1: with zero-width elements a reader that misreads the count (the very defect this pair is
+		// after) never runs out of input and loops until memory is exhausted; zero-width fields are C13's
+		width := 1 + c.rng.Intn(11)
 		pad := byte([]byte{' ', '0', 0, 'x'}[c.rng.Intn(4)])
 		left := c.rng.Bool()
 		vs := make([]string, n)
